@@ -33,3 +33,5 @@ func specOpenOK(path string) bool {
 //@ ensures[format@C09]   result1.OutputFormat == result0.OutputFormat
 //@ assigns *
 //@ ensures[raw@C09+C19]  result1.OutputFormat != "WCOFF" ==> vcWriteCount() == 1
+//@ ensures[written.raw@C19]  result1.OutputFormat != "WCOFF" ==> vcCalled("File.Write") && vcResult[error]("File.Write", 1) == nil
+//@ ensures[written.coff@C19] result1.OutputFormat == "WCOFF" ==> vcCalled("CoffFormat.Write") && vcResult[error]("CoffFormat.Write", 0) == nil
